@@ -17,7 +17,7 @@ RULE = ("trajectories of generated worlds (heterogeneous voltages, three-phase m
         "after each run every analysis function is recomputed in plain Python from the recorded rates, the scenario's voltages / "
         "phases / constraint dictionaries and the sessions; constraint subsets are requested in random order; non-trivial = "
         ">=2 distinct voltages and a subset query whose order differs from network order; distinct = history signature + query")
-PROBES = ["subset_reordered", "hetero_voltage", "nema_checked", "nema_zero_mean", "threshold_query", "unserved_session",
+PROBES = ["subset_reordered", "hetero_voltage", "nema_checked", "nema_zero_mean", "threshold_query", "unserved_session", "requery_after_update_constraint",
           "magnitudes_flag_true", "complex_return"]
 FAULT_DIMENSION = "none - post-run oracle on recorded trajectories (crash+rerun only diversifies the trajectories)"
 ASSUMPTIONS = ["constraint currents are compared by magnitude (either complex or real return passes)",
@@ -119,6 +119,32 @@ def check(sc):
                         if g != g or abs(g - w) > 1e-7 * max(1.0, abs(w)):
                             out.add("C18/nema", "t=%d: unbalance %r, NEMA formula %r (currents %s)" % (t, g, w, mags))
                             break
+            # the operator re-configures a constraint after the run (update_constraint moves it to the end of the network's
+            # order); the same kind of query must now describe the re-configured network, name by name
+            if len(names) >= 2 and not out.viol and r.random() < 0.6:
+                by = {c["name"]: dict(c, coeffs=dict(c["coeffs"])) for c in cons}
+                victim = r.choice(names[:-1]) if r.random() < 0.8 else names[-1]
+                fac = r.choice([2.0, 0.5, -1.0, 3.0])
+                by[victim]["coeffs"] = {k_: v_ * fac for k_, v_ in by[victim]["coeffs"].items()}
+                sim.network.update_constraint(victim, sut.Current(dict(by[victim]["coeffs"])), by[victim]["limit"] * 1.5)
+                names2 = [x for x in names if x != victim] + [victim]
+                out.probe("requery_after_update_constraint")
+                if list(sim.network.constraint_index) != names2:
+                    out.inconclusive += 1     # row order after an update is not part of the property
+                    names2 = list(sim.network.constraint_index)
+                sub2 = r.sample(names2, r.randint(1, len(names2)))
+                res2 = analysis.constraint_currents(sim, return_magnitudes=True, constraint_ids=sub2)
+                if sorted(res2.keys()) != sorted(sub2):
+                    out.add("C18/constraint_currents_keys", "after update_constraint: requested %s, got keys %s" % (sub2, sorted(res2.keys())))
+                for nm in (sub2 if not out.viol else []):
+                    for t in range(W):
+                        w = abs(sum(by[nm]["coeffs"].get(s, 0) * R[i][t] * cmath.exp(1j * math.radians(PH[i])) for i, s in enumerate(ids)))
+                        if not close(abs(complex(res2[nm][t])), w, rel=1e-8):
+                            out.add("C18/constraint_currents_after_update", "after update_constraint(%s): constraint %s t=%d: %r, phase-aware weighted sum "
+                                    "%r (requested %s, network order now %s)" % (victim, nm, t, complex(res2[nm][t]), w, sub2, names2))
+                            break
+                    if out.viol:
+                        break
             # energies
             if not out.viol:
                 sess = {s["session_id"]: s for s in sc["sessions"]}
